@@ -126,51 +126,55 @@ theorem unbox_eq (cv : Conv) (v : SV) : unbox cv v = unbox4 cv v := by
     cases vo.call (.str s) <;> cases ts.call (.str s) <;> simp [primString_eq]
   | _ => rfl
 
+/-- otto looks `toJSON` up exactly when ES5 Str step 2 does: on values of type Object only -/
+theorem viaToJSON_eq (pj : SV → Str → Option SV) (key : Str) (v : SV) : viaToJSON pj key v = step2 pj key v := by
+  cases v <;> simp [viaToJSON, step2, isObjectKind] <;> cases pj _ key <;> rfl
+
 mutual
-theorem walk_eq (M : MCtx) (S : SCtx) (hr : M.repl = S.repl) (hp : M.plist = S.plist) (hc : M.cv = S.cv) :
+theorem walk_eq (M : MCtx) (S : SCtx) (hr : M.repl = S.repl) (hp : M.plist = S.plist) (hc : M.cv = S.cv) (hj : M.pj = S.pj) :
     ∀ fuel depth key v, walk M fuel depth key v = WR.map gvOf (serial S fuel depth key v)
   | 0, _, _, _ => by simp [walk, serial, WR.map]
   | fuel + 1, depth, key, v => by
-    simp only [walk, serial, hr, hp, hc, unbox_eq]
-    generalize (unbox4 S.cv (match S.repl with | some f => f key (viaToJSON (viaGet v)) | none => viaToJSON (viaGet v))) = u
+    simp only [walk, serial, hr, hp, hc, hj, unbox_eq, viaToJSON_eq]
+    generalize (unbox4 S.cv (match S.repl with | some f => f key (step2 S.pj key (viaGet v)) | none => step2 S.pj key (viaGet v))) = u
     cases u with
     | arr l =>
-      simp only [walkArr_eq M S hr hp hc fuel (depth + 1) 0 l]
+      simp only [walkArr_eq M S hr hp hc hj fuel (depth + 1) 0 l]
       cases serialArr S fuel (depth + 1) 0 l <;> simp [WR.map, gvOf]
     | obj m =>
       cases hpl : S.plist with
       | none =>
-        simp only [walkObj_eq M S hr hp hc fuel (depth + 1) .nil m]
+        simp only [walkObj_eq M S hr hp hc hj fuel (depth + 1) .nil m]
         cases serialObj S fuel (depth + 1) m <;> simp [WR.map, gvOf]
       | some ks =>
-        simp only [walkList_eq M S hr hp hc fuel (depth + 1) .nil m ks]
+        simp only [walkList_eq M S hr hp hc hj fuel (depth + 1) .nil m ks]
         cases serialList S fuel (depth + 1) m ks <;> simp [WR.map, gvOf]
     | num x =>
       cases hf : isFiniteF x <;> simp [WR.map, gvOf, walkNum_nonfinite, hf]
     | back k => by_cases hk : k < depth <;> simp [hk, WR.map, gvOf, gvOfM]
     | _ => simp [WR.map, gvOf, gvOfM]
-theorem walkArr_eq (M : MCtx) (S : SCtx) (hr : M.repl = S.repl) (hp : M.plist = S.plist) (hc : M.cv = S.cv) :
+theorem walkArr_eq (M : MCtx) (S : SCtx) (hr : M.repl = S.repl) (hp : M.plist = S.plist) (hc : M.cv = S.cv) (hj : M.pj = S.pj) :
     ∀ fuel depth i l, walkArr M fuel depth i l = WR.map gvOfL (serialArr S fuel depth i l)
   | 0, _, _, _ => by simp [walkArr, serialArr, WR.map]
   | _ + 1, _, _, .nil => by simp [walkArr, serialArr, WR.map, gvOfL]
   | fuel + 1, depth, i, .cons v t => by
-    simp only [walkArr, serialArr, walk_eq M S hr hp hc fuel depth (decimalNat i) v, walkArr_eq M S hr hp hc fuel depth (i + 1) t]
+    simp only [walkArr, serialArr, walk_eq M S hr hp hc hj fuel depth (decimalNat i) v, walkArr_eq M S hr hp hc hj fuel depth (i + 1) t]
     cases serial S fuel depth (decimalNat i) v <;> cases serialArr S fuel depth (i + 1) t <;> simp [WR.map, gvOfL, gvOf]
-theorem walkObj_eq (M : MCtx) (S : SCtx) (hr : M.repl = S.repl) (hp : M.plist = S.plist) (hc : M.cv = S.cv) :
+theorem walkObj_eq (M : MCtx) (S : SCtx) (hr : M.repl = S.repl) (hp : M.plist = S.plist) (hc : M.cv = S.cv) (hj : M.pj = S.pj) :
     ∀ fuel depth acc m, walkObj M fuel depth acc m = WR.map (gvOfM acc) (serialObj S fuel depth m)
   | 0, _, _, _ => by simp [walkObj, serialObj, WR.map]
   | _ + 1, _, _, .nil => by simp [walkObj, serialObj, WR.map, gvOfM]
   | fuel + 1, depth, acc, .cons k v t => by
-    simp only [walkObj, serialObj, walk_eq M S hr hp hc fuel depth k v]
-    cases serial S fuel depth k v <;> simp only [WR.map, walkObj_eq M S hr hp hc fuel depth _ t] <;>
+    simp only [walkObj, serialObj, walk_eq M S hr hp hc hj fuel depth k v]
+    cases serial S fuel depth k v <;> simp only [WR.map, walkObj_eq M S hr hp hc hj fuel depth _ t] <;>
       cases serialObj S fuel depth t <;> simp [WR.map, gvOfM]
-theorem walkList_eq (M : MCtx) (S : SCtx) (hr : M.repl = S.repl) (hp : M.plist = S.plist) (hc : M.cv = S.cv) :
+theorem walkList_eq (M : MCtx) (S : SCtx) (hr : M.repl = S.repl) (hp : M.plist = S.plist) (hc : M.cv = S.cv) (hj : M.pj = S.pj) :
     ∀ fuel depth acc m ks, walkList M fuel depth acc m ks = WR.map (gvOfM acc) (serialList S fuel depth m ks)
   | 0, _, _, _, _ => by simp [walkList, serialList, WR.map]
   | _ + 1, _, _, _, [] => by simp [walkList, serialList, WR.map, gvOfM]
   | fuel + 1, depth, acc, m, k :: ks => by
-    simp only [walkList, serialList, walk_eq M S hr hp hc fuel depth k (SMs.get k m)]
-    cases serial S fuel depth k (SMs.get k m) <;> simp only [WR.map, walkList_eq M S hr hp hc fuel depth _ m ks] <;>
+    simp only [walkList, serialList, walk_eq M S hr hp hc hj fuel depth k (SMs.get k m)]
+    cases serial S fuel depth k (SMs.get k m) <;> simp only [WR.map, walkList_eq M S hr hp hc hj fuel depth _ m ks] <;>
       cases serialList S fuel depth m ks <;> simp [WR.map, gvOfM]
 end
 
